@@ -122,7 +122,7 @@ func (p *c08prop) KindCPU(kind, tier string) int {
 }
 
 func (p *c08prop) Plan(tier string, seed int64) []core.Segment {
-	m := tierScale(tier, 30)
+	m := tierScale(tier, 12)
 	var segs []core.Segment
 	for _, t := range gen.ParserTypes {
 		segs = append(segs, core.Segment{Kind: "corpus:" + t, N: 60}, core.Segment{Kind: t, N: 1400 * m})
